@@ -21,6 +21,9 @@ CHECKS["C12"] = ("metamorphic property-based testing (proptest): plain run vs th
 CHECKS["C18"] = ("property-based testing (proptest) against call counters of an instrumented IVP",
          "Generated problems/methods/tolerances/Jacobian sources; nfev, njev, naccpt, nstep compared with the calls actually observed (finite-difference evaluations separated by a flag set while the crate's default IVP::jac runs).",
          "One events() call per accepted step is used to count accepted steps (public hook).", "DESIGN.md §4 C18")
+CHECKS["C11"] = ("property-based testing (proptest): step sequence and first trial step observed through an instrumented IVP; budgeted run vs unbudgeted twin (bit-identical prefix)",
+         "Generated slow problems where the controller wants steps longer than max_step; accepted-step lengths from the events hook, first trial step from recorded right-hand-side times, step budget by differential comparison with the unbudgeted run.",
+         "Slack 1e-12 relative/absolute on step lengths; off-by-one tolerance in where solvers test the budget.", "DESIGN.md §4 C11")
 PENDING = {}
 
 def main():
